@@ -382,4 +382,425 @@ theorem changeVartypeWith_evalL (toBinary toSpin : PyTable Rat) (m : LBqm Rat) (
 
 end LBqm
 
+/-! ## the invariant along histories -/
+
+theorem mem_okeys_set {β : Type} (d : ODict Label β) (k : Label) (v : β) (x : Label) :
+    x ∈ okeys (ODict.set d k v) ↔ x = k ∨ x ∈ okeys d := by
+  induction d with
+  | nil => simp [ODict.set, okeys]
+  | cons e t ih =>
+    obtain ⟨k0, b0⟩ := e
+    simp only [ODict.set]
+    by_cases h : k0 = k
+    · subst h; simp only [if_true, okeys, List.map_cons, List.mem_cons]; tauto
+    · simp only [h, if_false, okeys, List.map_cons, List.mem_cons]
+      have := ih
+      simp only [okeys] at this
+      rw [this]; tauto
+
+theorem okeys_set_nodup {β : Type} (d : ODict Label β) (hnd : (okeys d).Nodup) (k : Label) (v : β) :
+    (okeys (ODict.set d k v)).Nodup := by
+  induction d with
+  | nil => simp [ODict.set, okeys]
+  | cons e t ih =>
+    obtain ⟨k0, b0⟩ := e
+    simp only [okeys, List.map_cons, List.nodup_cons] at hnd
+    simp only [ODict.set]
+    by_cases h : k0 = k
+    · subst h; simp only [if_true, okeys, List.map_cons, List.nodup_cons]; exact hnd
+    · simp only [h, if_false]
+      show (k0 :: okeys (ODict.set t k v)).Nodup
+      rw [List.nodup_cons]
+      refine ⟨?_, ih hnd.2⟩
+      rw [mem_okeys_set]
+      rintro (e | e)
+      · exact h e
+      · exact hnd.1 e
+
+theorem isSome_get?_iff {β : Type} (d : ODict Label β) (k : Label) : (ODict.get? d k).isSome ↔ k ∈ okeys d := by
+  induction d with
+  | nil => simp [ODict.get?, okeys]
+  | cons e t ih =>
+    obtain ⟨k0, b0⟩ := e
+    simp only [ODict.get?, okeys, List.map_cons, List.mem_cons]
+    by_cases h : k0 = k
+    · subst h; simp
+    · have h' : ¬ k = k0 := fun e => h e.symm
+      simp only [h, if_false, h', false_or]; exact ih
+
+theorem get?_pop {β : Type} (d : ODict Label β) (hnd : (okeys d).Nodup) (k k' : Label) :
+    ODict.get? (ODict.pop d k) k' = if k = k' then none else ODict.get? d k' := by
+  induction d with
+  | nil => simp [ODict.pop, ODict.get?]
+  | cons e t ih =>
+    obtain ⟨k0, b0⟩ := e
+    simp only [okeys, List.map_cons, List.nodup_cons] at hnd
+    simp only [ODict.pop]
+    by_cases h : k0 = k
+    · subst h
+      simp only [if_true, ODict.get?]
+      by_cases h2 : k0 = k'
+      · subst h2; simp only [if_true]; exact get?_none_of_not_mem t k0 hnd.1
+      · simp [h2]
+    · simp only [h, if_false, ODict.get?]
+      rw [ih hnd.2]
+      by_cases h2 : k0 = k'
+      · subst h2; simp [h]; intro e; exact absurd e.symm h
+      · simp [h2]
+
+theorem mem_okeys_pop {β : Type} (d : ODict Label β) (hnd : (okeys d).Nodup) (k x : Label) :
+    x ∈ okeys (ODict.pop d k) ↔ x ≠ k ∧ x ∈ okeys d := by
+  rw [← isSome_get?_iff, get?_pop d hnd, ← isSome_get?_iff]
+  by_cases h : k = x
+  · subst h; simp
+  · have : x ≠ k := fun e => h e.symm
+    simp [h, this]
+
+theorem okeys_pop_nodup {β : Type} (d : ODict Label β) (hnd : (okeys d).Nodup) (k : Label) : (okeys (ODict.pop d k)).Nodup := by
+  induction d with
+  | nil => simp [ODict.pop, okeys]
+  | cons e t ih =>
+    obtain ⟨k0, b0⟩ := e
+    have hnd' := hnd
+    simp only [okeys, List.map_cons, List.nodup_cons] at hnd
+    simp only [ODict.pop]
+    by_cases h : k0 = k
+    · simp only [h, if_true]; exact hnd.2
+    · simp only [h, if_false]
+      show (k0 :: okeys (ODict.pop t k)).Nodup
+      rw [List.nodup_cons]
+      refine ⟨?_, ih hnd.2⟩
+      rw [mem_okeys_pop t hnd.2]
+      exact fun e => hnd.1 e.2
+
+theorem get?_map_vals {β γ : Type} (d : ODict Label β) (g : Label → β → γ) (k : Label) :
+    ODict.get? (d.map fun p => (p.1, g p.1 p.2)) k = (ODict.get? d k).map (g k) := by
+  induction d with
+  | nil => simp [ODict.get?]
+  | cons e t ih =>
+    obtain ⟨k0, b0⟩ := e
+    simp only [List.map_cons, ODict.get?]
+    by_cases h : k0 = k
+    · subst h; simp
+    · simp [h, ih]
+
+theorem okeys_map_vals {β γ : Type} (d : ODict Label β) (g : Label → β → γ) : okeys (d.map fun p => (p.1, g p.1 p.2)) = okeys d := by
+  unfold okeys; rw [List.map_map]; rfl
+
+namespace LBqm
+
+/-- `_adj[a][b]` as an optional value -/
+def look (m : LBqm Rat) (a b : Label) : Option Rat := (ODict.get? m.adj a).bind fun nu => ODict.get? nu b
+
+/-- both copies of an interaction exist together and carry the same bias -/
+def LSym (m : LBqm Rat) : Prop := ∀ a b, m.look a b = m.look b a
+
+theorem entry_eq_look (m : LBqm Rat) (a b : Label) : m.entry a b = (m.look a b).getD 0 := rfl
+
+theorem LSym.toSym {m : LBqm Rat} (h : m.LSym) : m.Sym := fun a b => by rw [entry_eq_look, entry_eq_look, h a b]
+
+theorem look_row (m : LBqm Rat) (a b : Label) : ODict.get? ((ODict.get? m.adj a).getD []) b = m.look a b := by
+  unfold look; cases ODict.get? m.adj a <;> simp [ODict.get?]
+
+theorem look_setRow (m : LBqm Rat) (v : Label) (row : ODict Label Rat) (a b : Label) :
+    look { m with adj := m.adj.set v row } a b = if a = v then ODict.get? row b else m.look a b := by
+  unfold look
+  simp only []
+  rw [get?_set_cases]
+  by_cases h : v = a
+  · subst h; simp
+  · have : ¬ a = v := fun e => h e.symm
+    simp [h, this]
+
+/-- the representation invariant in terms of lookups -/
+structure SInv (m : LBqm Rat) : Prop where
+  nodup : (okeys m.adj).Nodup
+  rows : ∀ u nu, ODict.get? m.adj u = some nu → (okeys nu).Nodup ∧ u ∈ okeys nu
+
+structure GInv (m : LBqm Rat) : Prop where
+  s : SInv m
+  sym : m.LSym
+
+theorem GInv.toLInv {m : LBqm Rat} (g : GInv m) : LInv m where
+  nodup := g.s.nodup
+  rowNodup := fun u nu h => (g.s.rows u nu (get?_of_mem m.adj g.s.nodup u nu h)).1
+  self := fun u nu h => by
+    have := (g.s.rows u nu (get?_of_mem m.adj g.s.nodup u nu h)).2
+    rw [← isSome_get?_iff] at this
+    exact Option.isSome_iff_exists.mp this
+  closed := fun u nu h v hv => by
+    have hu := get?_of_mem m.adj g.s.nodup u nu h
+    have h1 : (m.look u v).isSome := by unfold look; rw [hu]; simpa [isSome_get?_iff] using hv
+    rw [g.sym u v] at h1
+    rw [← isSome_get?_iff]
+    unfold look at h1
+    cases hg : ODict.get? m.adj v with
+    | none => rw [hg] at h1; simp at h1
+    | some r => rfl
+  sym := g.sym.toSym
+
+theorem GInv.empty (vt : VT) : GInv ({ vt, adj := [], off := 0 } : LBqm Rat) where
+  s := { nodup := List.nodup_nil, rows := fun u nu h => by simp [ODict.get?] at h }
+  sym := fun a b => by simp [look, ODict.get?]
+
+/-- replacing / creating one neighbourhood -/
+theorem SInv.setRow {m : LBqm Rat} (g : SInv m) (v : Label) (row : ODict Label Rat) (h1 : (okeys row).Nodup) (h2 : v ∈ okeys row) :
+    SInv { m with adj := m.adj.set v row } where
+  nodup := okeys_set_nodup m.adj g.nodup v row
+  rows := fun u nu h => by
+    simp only [] at h
+    rw [get?_set_cases] at h
+    by_cases hv : v = u
+    · subst hv
+      simp only [if_true, Option.some.injEq] at h
+      subst h
+      exact ⟨h1, h2⟩
+    · simp only [hv, if_false] at h
+      exact g.rows u nu h
+
+theorem row_nodup {m : LBqm Rat} (g : SInv m) (v : Label) : (okeys ((ODict.get? m.adj v).getD [])).Nodup := by
+  cases h : ODict.get? m.adj v with
+  | none => simp [okeys]
+  | some nu => exact (g.rows v nu h).1
+
+theorem mem_set_self {β : Type} (d : ODict Label β) (k : Label) (v : β) : k ∈ okeys (ODict.set d k v) :=
+  (mem_okeys_set d k v k).mpr (Or.inl rfl)
+
+theorem look_addLinear (m : LBqm Rat) (v : Label) (c : Rat) (a b : Label) :
+    (m.addLinear v c).look a b = if a = v ∧ b = v then some ((m.look v v).getD 0 + c) else m.look a b := by
+  unfold addLinear
+  rw [look_setRow]
+  by_cases ha : a = v
+  · subst ha
+    rw [get?_set_cases]
+    simp only [look_row]
+    by_cases hb : a = b
+    · subst hb; simp
+    · have hb' : ¬ b = a := fun e => hb e.symm
+      simp [hb, hb']
+  · simp [ha]
+
+theorem GInv.addLinear {m : LBqm Rat} (g : GInv m) (v : Label) (b : Rat) : GInv (m.addLinear v b) := by
+  refine ⟨SInv.setRow g.s v _ (okeys_set_nodup _ (row_nodup g.s v) v _) (mem_set_self _ _ _), ?_⟩
+  intro a c
+  rw [look_addLinear m v b a c, look_addLinear m v b c a, g.sym a c]
+  by_cases x : a = v <;> by_cases y : c = v <;> simp [x, y]
+
+theorem look_setLinear (m : LBqm Rat) (v : Label) (c : Rat) (a b : Label) :
+    (m.setLinear v c).look a b = if a = v ∧ b = v then some c else m.look a b := by
+  unfold setLinear
+  rw [look_setRow]
+  by_cases ha : a = v
+  · subst ha
+    rw [get?_set_cases, look_row]
+    by_cases hb : a = b
+    · subst hb; simp
+    · have hb' : ¬ b = a := fun e => hb e.symm
+      simp [hb, hb']
+  · simp [ha]
+
+theorem GInv.setLinear {m : LBqm Rat} (g : GInv m) (v : Label) (b : Rat) : GInv (m.setLinear v b) := by
+  refine ⟨SInv.setRow g.s v _ (okeys_set_nodup _ (row_nodup g.s v) v _) (mem_set_self _ _ _), ?_⟩
+  intro a c
+  rw [look_setLinear m v b a c, look_setLinear m v b c a, g.sym a c]
+  by_cases x : a = v <;> by_cases y : c = v <;> simp [x, y]
+
+theorem GInv.setOffset {m : LBqm Rat} (g : GInv m) (b : Rat) : GInv { m with off := b } where
+  s := { nodup := g.s.nodup, rows := g.s.rows }
+  sym := g.sym
+
+theorem GInv.ensure {m : LBqm Rat} (g : GInv m) (u : Label) :
+    GInv (if m.adj.contains u then m else m.setLinear u 0) ∧ u ∈ okeys (if m.adj.contains u then m else m.setLinear u 0).adj := by
+  by_cases h : m.adj.contains u = true
+  · simp only [h, if_true]
+    exact ⟨g, (isSome_get?_iff _ _).mp h⟩
+  · simp only [h, Bool.false_eq_true, if_false]
+    refine ⟨g.setLinear u 0, ?_⟩
+    unfold LBqm.setLinear
+    exact mem_set_self _ _ _
+
+theorem look_of_get? (m : LBqm Rat) (a : Label) (nu : ODict Label Rat) (h : ODict.get? m.adj a = some nu) (b : Label) :
+    m.look a b = ODict.get? nu b := by unfold look; rw [h]; rfl
+
+/-- `adj[u][v] = adj[v][u] = x` on a model that has both variables -/
+theorem GInv.quadSet {m : LBqm Rat} (g : GInv m) (u v : Label) (huv : u ≠ v) (nu nv : ODict Label Rat)
+    (hu : ODict.get? m.adj u = some nu) (hv : ODict.get? m.adj v = some nv) (x : Rat) :
+    GInv { m with adj := (m.adj.set u (nu.set v x)).set v (nv.set u x) } := by
+  have s1 : SInv { m with adj := m.adj.set u (nu.set v x) } :=
+    SInv.setRow g.s u _ (okeys_set_nodup _ (g.s.rows u nu hu).1 v _) ((mem_okeys_set _ _ _ _).mpr (Or.inr (g.s.rows u nu hu).2))
+  have s2 := SInv.setRow s1 v (nv.set u x) (okeys_set_nodup _ (g.s.rows v nv hv).1 u _)
+    ((mem_okeys_set _ _ _ _).mpr (Or.inr (g.s.rows v nv hv).2))
+  refine ⟨s2, ?_⟩
+  have hl : ∀ a b, look { m with adj := (m.adj.set u (nu.set v x)).set v (nv.set u x) } a b
+      = if a = v then (if u = b then some x else m.look v b) else if a = u then (if v = b then some x else m.look u b) else m.look a b := by
+    intro a b
+    have e1 := look_setRow { m with adj := m.adj.set u (nu.set v x) } v (nv.set u x) a b
+    simp only [] at e1
+    rw [e1, look_setRow, get?_set_cases, get?_set_cases, look_of_get? m v nv hv, look_of_get? m u nu hu]
+  intro a b
+  rw [hl, hl]
+  have hvu : v ≠ u := fun e => huv e.symm
+  have q1 := g.sym v b
+  have q2 := g.sym u b
+  have q3 := g.sym a v
+  have q4 := g.sym a u
+  have q5 := g.sym a b
+  by_cases a1 : a = v <;> by_cases a2 : a = u <;> by_cases b1 : b = v <;> by_cases b2 : b = u <;>
+    simp_all [eq_comm]
+
+theorem mem_keys_of_get? {β : Type} (d : ODict Label β) (k : Label) (b : β) (h : ODict.get? d k = some b) : k ∈ okeys d :=
+  (isSome_get?_iff d k).mp (by rw [h]; rfl)
+
+theorem GInv.addQuadratic {m : LBqm Rat} (g : GInv m) (u v : Label) (b : Rat) :
+    GInv (match m.addQuadratic u v b with | .ok m' => m' | .error _ => m) := by
+  unfold LBqm.addQuadratic
+  by_cases huv : u = v
+  · simp only [huv, if_true]; exact g
+  · simp only [huv, if_false]
+    obtain ⟨g1, hu1⟩ := g.ensure u
+    generalize (if m.adj.contains u then m else m.setLinear u 0) = m1 at g1 hu1 ⊢
+    obtain ⟨g2, hv2⟩ := g1.ensure v
+    have hu2 : u ∈ okeys (if m1.adj.contains v then m1 else m1.setLinear v 0).adj := by
+      by_cases h : m1.adj.contains v = true
+      · simp only [h, if_true]; exact hu1
+      · simp only [h, Bool.false_eq_true, if_false]
+        unfold LBqm.setLinear
+        exact (mem_okeys_set _ _ _ _).mpr (Or.inr hu1)
+    generalize (if m1.adj.contains v then m1 else m1.setLinear v 0) = m2 at g2 hv2 hu2 ⊢
+    obtain ⟨nu, hnu⟩ := Option.isSome_iff_exists.mp ((isSome_get?_iff _ _).mpr hu2)
+    obtain ⟨nv, hnv⟩ := Option.isSome_iff_exists.mp ((isSome_get?_iff _ _).mpr hv2)
+    have hgv : ODict.get? (ODict.set m2.adj u (ODict.set nu v ((ODict.get? nv u).getD 0 + b))) v = some nv := by
+      rw [get?_set_ne _ _ _ _ huv]; exact hnv
+    simp only [hnu, hnv, Option.getD_some, hgv]
+    exact g2.quadSet u v huv nu nv hnu hnv _
+
+theorem GInv.removeInteraction {m : LBqm Rat} (g : GInv m) (u v : Label) :
+    GInv (match m.removeInteraction u v with | .ok m' => m' | .error _ => m) := by
+  unfold LBqm.removeInteraction
+  by_cases huv : u = v
+  · simp only [huv, if_true]; exact g
+  · simp only [huv, if_false]
+    have hl : (ODict.get? m.adj u).bind (fun x => ODict.get? x v) = m.look u v := rfl
+    rw [hl]
+    cases h : m.look u v with
+    | none => exact g
+    | some z =>
+      simp only []
+      have h' : m.look v u = some z := by rw [← g.sym u v]; exact h
+      obtain ⟨nu, hnu⟩ : ∃ nu, ODict.get? m.adj u = some nu := by
+        unfold look at h; cases hg : ODict.get? m.adj u with
+        | none => rw [hg] at h; simp at h
+        | some r => exact ⟨r, rfl⟩
+      obtain ⟨nv, hnv⟩ : ∃ nv, ODict.get? m.adj v = some nv := by
+        unfold look at h'; cases hg : ODict.get? m.adj v with
+        | none => rw [hg] at h'; simp at h'
+        | some r => exact ⟨r, rfl⟩
+      have hgv : ODict.get? (ODict.set m.adj u (ODict.pop nu v)) v = some nv := by
+        rw [get?_set_ne _ _ _ _ huv]; exact hnv
+      simp only [hnu, Option.getD_some, hgv]
+      have hvu : v ≠ u := fun e => huv e.symm
+      have ru := g.s.rows u nu hnu
+      have rv := g.s.rows v nv hnv
+      have s1 : SInv { m with adj := m.adj.set u (nu.pop v) } :=
+        SInv.setRow g.s u _ (okeys_pop_nodup _ ru.1 v) ((mem_okeys_pop _ ru.1 _ _).mpr ⟨huv, ru.2⟩)
+      have s2 := SInv.setRow s1 v (nv.pop u) (okeys_pop_nodup _ rv.1 u) ((mem_okeys_pop _ rv.1 _ _).mpr ⟨hvu, rv.2⟩)
+      refine ⟨s2, ?_⟩
+      have hl : ∀ a b, look { m with adj := (m.adj.set u (nu.pop v)).set v (nv.pop u) } a b
+          = if a = v then (if u = b then none else m.look v b) else if a = u then (if v = b then none else m.look u b) else m.look a b := by
+        intro a b
+        have e1 := look_setRow { m with adj := m.adj.set u (nu.pop v) } v (nv.pop u) a b
+        simp only [] at e1
+        rw [e1, look_setRow, get?_pop _ rv.1, get?_pop _ ru.1, look_of_get? m v nv hnv, look_of_get? m u nu hnu]
+      intro a b
+      rw [hl, hl]
+      have q1 := g.sym v b
+      have q2 := g.sym u b
+      have q3 := g.sym a v
+      have q4 := g.sym a u
+      have q5 := g.sym a b
+      by_cases a1 : a = v <;> by_cases a2 : a = u <;> by_cases b1 : b = v <;> by_cases b2 : b = u <;>
+        simp_all [eq_comm]
+
+/-! ### `change_vartype` keeps the invariant -/
+
+def cvVal (t : PyTable Rat) (u : Label) (nu : ODict Label Rat) (k : Label) (x : Rat) : Rat :=
+  if k = u then t.linMp * lbias u nu + t.linQuadMp * ((others u nu).map (·.2)).sum else t.quadMp * x
+
+def cvRowF (t : PyTable Rat) (u : Label) (nu : ODict Label Rat) : ODict Label Rat := nu.map fun p => (p.1, cvVal t u nu p.1 p.2)
+
+theorem cvRow_eq (t : PyTable Rat) (r : Label × ODict Label Rat) : cvRow t r = (r.1, cvRowF t r.1 r.2) := by
+  unfold cvRow cvRowF cvVal
+  congr 1
+  apply List.map_congr_left
+  intro p _
+  by_cases h : p.1 = r.1 <;> simp [h]
+
+theorem GInv.cvTable {m : LBqm Rat} (g : GInv m) (t : PyTable Rat) (vt' : VT) (o : Rat) :
+    GInv { vt := vt', adj := m.adj.map (cvRow t), off := o } := by
+  have hadj : m.adj.map (cvRow t) = m.adj.map fun r => (r.1, cvRowF t r.1 r.2) := by
+    apply List.map_congr_left
+    intro r _
+    exact cvRow_eq t r
+  rw [hadj]
+  have hget : ∀ u, ODict.get? (m.adj.map fun r => (r.1, cvRowF t r.1 r.2)) u = (ODict.get? m.adj u).map (cvRowF t u) :=
+    fun u => get?_map_vals m.adj (cvRowF t) u
+  have hrow : ∀ u nu b, ODict.get? (cvRowF t u nu) b = (ODict.get? nu b).map (cvVal t u nu b) :=
+    fun u nu b => get?_map_vals nu (cvVal t u nu) b
+  refine ⟨⟨?_, ?_⟩, ?_⟩
+  · show (okeys (m.adj.map fun r => (r.1, cvRowF t r.1 r.2))).Nodup
+    rw [okeys_map_vals m.adj (cvRowF t)]; exact g.s.nodup
+  · intro u nu' hg
+    have hg' : ODict.get? (m.adj.map fun r => (r.1, cvRowF t r.1 r.2)) u = some nu' := hg
+    rw [hget] at hg'
+    cases hu : ODict.get? m.adj u with
+    | none => rw [hu] at hg'; simp at hg'
+    | some nu =>
+      rw [hu] at hg'
+      simp only [Option.map_some, Option.some.injEq] at hg'
+      subst hg'
+      unfold cvRowF
+      rw [okeys_map_vals nu (cvVal t u nu)]
+      exact g.s.rows u nu hu
+  · intro a b
+    by_cases hab : a = b
+    · subst hab; rfl
+    · show (ODict.get? (m.adj.map fun r => (r.1, cvRowF t r.1 r.2)) a).bind (fun nu => ODict.get? nu b)
+        = (ODict.get? (m.adj.map fun r => (r.1, cvRowF t r.1 r.2)) b).bind (fun nu => ODict.get? nu a)
+      rw [hget, hget]
+      have hs := g.sym a b
+      unfold look at hs
+      have hba : ¬ b = a := fun e => hab e.symm
+      cases ha : ODict.get? m.adj a with
+      | none =>
+        rw [ha] at hs
+        cases hb : ODict.get? m.adj b with
+        | none => simp
+        | some nb =>
+          rw [hb] at hs
+          simp only [Option.bind_none, Option.bind_some] at hs
+          simp only [Option.map_none, Option.bind_none, Option.map_some, Option.bind_some, hrow, ← hs, Option.map_none]
+      | some na =>
+        rw [ha] at hs
+        cases hb : ODict.get? m.adj b with
+        | none =>
+          rw [hb] at hs
+          simp only [Option.bind_none, Option.bind_some] at hs
+          simp only [Option.map_none, Option.bind_none, Option.map_some, Option.bind_some, hrow, hs, Option.map_none]
+        | some nb =>
+          rw [hb] at hs
+          simp only [Option.bind_some] at hs
+          simp only [Option.map_some, Option.bind_some, hrow, hs]
+          unfold cvVal
+          cases ODict.get? nb a <;> simp [hab, hba]
+
+theorem GInv.changeVartype {m : LBqm Rat} (g : GInv m) (toBinary toSpin : PyTable Rat) (vt : VT) :
+    GInv (m.changeVartypeWith toBinary toSpin vt) := by
+  unfold LBqm.changeVartypeWith
+  by_cases h : m.vt = vt
+  · rw [if_pos h]; exact g
+  · rw [if_neg h]
+    cases vt <;> (simp only [go_spec]; exact g.cvTable _ _ _)
+
+end LBqm
+
 end En
